@@ -22,6 +22,14 @@ theorem ref_init : Ref {} {} := ⟨rel_abs _ _ rfl, rfl, fun _ => rfl⟩
 def probeDesc (img : List Nat) : ObsDesc :=
   { typ := if fOpcode img = 4 then 1 else 0, realSrc := fRealSrc img, src := fEthSrc img, dst := fEthDst img }
 
+/-- what an icon request leaves in an empty cache: the platform's icon; an EMPTY icon only when the platform hands it over
+    as a (zero-length) block; nothing when the getter fails -/
+def iconFill (g : Glob) (cur : Option (List Nat)) : Option (List Nat) :=
+  match g.icon with
+  | some (b :: bs) => some (b :: bs)
+  | some [] => if g.emptyBlock then some [] else cur
+  | none => cur
+
 /-- the (pending, overflow, icon cache) components of the specification step as a function of (ToS, opcode) -/
 def restStep (own : List Nat) (dom : Nat) (g : Glob) (s : SpecSt) (img : List Nat) (rep : List ObsDesc) :
     List ObsDesc × Bool × Option (List Nat) :=
@@ -32,7 +40,7 @@ def restStep (own : List Nat) (dom : Nat) (g : Glob) (s : SpecSt) (img : List Na
   else if (tos = 0 ∨ tos = 1) ∧ op = 11 then
     (s.pending, s.overflow,
       if fSeq img ≠ 0 ∧ byteAt img 32 = 0x0E ∧ s.iconCache.isNone = true then
-        (match g.icon with | some (b :: bs) => some (b :: bs) | _ => s.iconCache)
+        iconFill g s.iconCache
       else s.iconCache)
   else if tos = 0 ∧ (op = 3 ∨ op = 4) then
     if (fRealDst img != own) = true then (s.pending, s.overflow, s.iconCache)
@@ -48,7 +56,7 @@ theorem spec_rest (own : List Nat) (dom : Nat) (g : Glob) (s : SpecSt) (img : Li
   have l32 : decide (img.length ≥ 32) = true := decide_eq_true (by omega)
   have l34 : decide (img.length ≥ 34) = true := decide_eq_true (by omega)
   have l36 : decide (img.length ≥ 36) = true := decide_eq_true (by omega)
-  unfold specStep restStep probeDesc
+  unfold specStep restStep probeDesc iconFill
   simp only [h32, if_false, isReset0, isReset, isDiscover, isEmit, isQuery, isLarge, isProbe, l32, l34, l36, Bool.true_and,
     spec_fOp, spec_fRealSrc, spec_fEthSrc, spec_fSeq, spec_fRealDst, spec_fEthDst]
   by_cases t0 : LLTD.fTos img = 0
@@ -155,7 +163,7 @@ theorem qltlv_rest (c : Cfg) (g : Glob) (w : World) (st : St) (img : List Nat) :
     (parseQueryLargeTlv c g w st img).st.sees = st.sees ∧
     (parseQueryLargeTlv c g w st img).st.icon =
       (if fSeq img ≠ 0 ∧ byteAt img 32 = 0x0E ∧ st.icon.isNone = true then
-        (match g.icon with | some (b :: bs) => some (b :: bs) | _ => st.icon)
+        iconFill g st.icon
        else st.icon) := by
   unfold parseQueryLargeTlv
   by_cases hs : fSeq img = 0
@@ -168,11 +176,15 @@ theorem qltlv_rest (c : Cfg) (g : Glob) (w : World) (st : St) (img : List Nat) :
       cases hic : st.icon with
       | some ic => simp; exact ⟨by rw [setActive_sees], by rw [setActive_icon]⟩
       | none =>
+        unfold iconFill
         cases hg : g.icon with
         | none => simp [setActive_sees, setActive_icon, hic]
         | some d =>
           cases d with
-          | nil => simp [setActive_sees, setActive_icon, hic]
+          | nil =>
+            by_cases he : g.emptyBlock = true
+            · simp [setActive_sees, setActive_icon, hic, he, hs]
+            · simp [setActive_sees, setActive_icon, hic, he]
           | cons b bs => simp [setActive_sees, hs]
     · simp only [ht, if_false]
       have hno : ¬ (¬ fSeq img = 0 ∧ False ∧ st.icon.isNone = true) := by simp
